@@ -18,6 +18,11 @@ def texts(rng):
 def gen_case(rng, cid):
     nn = rng.randint(2, 4)
     names = rng.sample(NAMES, nn)
+    if rng.random() < 0.35:           # two DAGs whose names differ only in letter case are two DAGs
+        base = rng.choice(["a", "ab", "report"])
+        pair = [base, base.capitalize() if rng.random() < 0.5 else base.upper()]
+        names = pair + [x for x in names if x not in pair][:nn - 2]
+        nn = len(names)
     T = texts(rng)
     ops, pay, nreq = [], 0, 0
     t0 = 1717200000000
